@@ -39,6 +39,13 @@ type Op struct {
 	Kind string `json:"kind"`
 	N    int    `json:"n"`
 	Cut  int    `json:"cut,omitempty"`
+	// Assert (reopen only): the filter-header store is reopened with a
+	// header state assertion, as a client started with
+	// Config.AssertFilterHeader does: "" none | holds (the stored value at a
+	// height <= tip, N steps below it) | beyond (a height above the tip) |
+	// fails (a wrong value at a stored height: the store must come up reset
+	// to the genesis entry).
+	Assert string `json:"assert,omitempty"`
 }
 
 func (o Op) String() string { return fmt.Sprintf("%s(%d)", o.Kind, o.N) }
@@ -88,6 +95,8 @@ type Env struct {
 	BS     headerfs.BlockHeaderStore
 	FS     headerfs.FilterHeaderStore
 	Params *kit.World
+	// Assert is handed to the next NewFilterHeaderStore call (and cleared).
+	Assert *headerfs.FilterHeader
 }
 
 var baseWorld = kit.BuildWorld(kit.WorldSpec{P: kit.ParamSpec{Retarget: 0, Spacing: 60, Adj: 4, VerFloor: 1}, Seed: 0, Base: 0, Future: 0})
@@ -125,7 +134,9 @@ func (e *Env) Open() error {
 		raw.Close()
 		return fmt.Errorf("NewBlockHeaderStore: %w", err)
 	}
-	fs, err := headerfs.NewFilterHeaderStore(e.Dir, e.DB, headerfs.RegularFilter, &params, nil)
+	as := e.Assert
+	e.Assert = nil
+	fs, err := headerfs.NewFilterHeaderStore(e.Dir, e.DB, headerfs.RegularFilter, &params, as)
 	if err != nil {
 		raw.Close()
 		return fmt.Errorf("NewFilterHeaderStore: %w", err)
